@@ -706,6 +706,31 @@ def separator_value_burst(rng, version, hist):
     return out[:pos] + script + out[pos:]
 
 
+def near_valid_reports(rng, version, hist):
+    """reports from presented children whose payload comes from the boundary corpus of the value type's rule
+    (C03's): accepted ones are stored and answered on request, rejected ones change nothing"""
+    from . import c03
+    if rng.random() > 0.5:
+        return hist
+    if not _SPEC:
+        _SPEC.append(c03.load_spec())
+    sets = _SPEC[0]["versions"][version]["commands"]["1"]["sub_types"]
+    typed = [int(k) for k, row in sets.items() if not str(row["rule"]).startswith("text")]
+    kids = [(i, op[1].split(";")[0], op[1].split(";")[1]) for i, op in enumerate(hist)
+            if op[0] == "L" and op[1].count(";") == 5 and op[1].split(";")[2] == "0" and op[1].split(";")[1] != "255"]
+    out = list(hist)
+    for i, node, child in sorted(rng.sample(kids, min(3, len(kids))), reverse=True):
+        sub = rng.choice(typed)
+        payload = rng.choice(c03.class_corpus(sets[str(sub)]["rule"]))
+        if ";" in payload or "\n" in payload or len(payload) > 200:
+            continue
+        k = rng.randrange(i + 1, len(out) + 1)
+        while k < len(out) and out[k][0] == "R":
+            k += 1
+        out[k:k] = [("L", f"{node};{child};1;0;{sub};{payload}\n"), ("L", f"{node};{child};2;0;{sub};\n")]
+    return out
+
+
 def wake_payload(rng):
     """what a node puts into its heartbeat response / pre-sleep notification: a counter or a duration in ms,
     any integer including 0"""
@@ -871,7 +896,10 @@ def gen_malformed(rng, version, sym):
             kids = list(sym.nodes.get(node, {}).get("children", {})) or [0]
             child = 255 if typ == 3 or (typ == 0 and sub in (17, 18)) else rng.choice(kids)
             payload = rng.choice(c03.class_corpus(rule))
-            if ";" not in payload and "\n" not in payload and len(payload) < 200:
+            # (version strings outside the numeric grammar are C03's and C18's business: the gateway model
+            # counts them as rejected, the library may know them)
+            if ";" not in payload and "\n" not in payload and len(payload) < 200 \
+                    and (rule != "version" or c03.version_modelled(payload)):
                 return f"{node};{child};{typ};0;{sub};{payload}\n"
     if r < 0.8:
         # valid header, arbitrary payload
